@@ -43,7 +43,7 @@ META = {
  "C12": ("exploration", "round-trip monitoring of lexer/parser literals against a spelling generator; token positions against a layout engine",
    "Strings spelled with every supported escape and quote, ints in decimal/underscore/hex spellings, floats in every strconv formatting must come back exactly; each token's (line, column) must be the position of its first rune for arbitrary layouts.",
    "EOF token position and lexer error positions are pinned by the repository tests and not judged.", "5/C12"),
- "C13": ("exploration", "fault injection with known positions; monitor on every *file.Error",
+ "C13": ("fault_enumeration", "fault injection with known positions; monitor on every *file.Error",
    "One fault (unknown name, type mismatch, syntax fault, or one failing run-time operation) is injected at a known (line, column) into multi-line, multi-byte sources; the reported location must be exactly that; every error location must lie inside the source and the snippet must be the named line.",
    "Lexer-level error columns are pinned one past the rune by the repository tests; only in-source/snippet checks apply to them.", "5/C13"),
  "C14": ("exploration", "exhaustive kind x kind x operator table against the promotion model (reflect.Convert by family), boundary grid of values",
